@@ -463,6 +463,25 @@ impl<'a> Builder<'a> {
                     }
                 }
             }
+            // General entities may be declared in any order: a reference inside an entity value is resolved when the
+            // entity is used, not where it is declared. Now and then the internal entities trade places (first with last,
+            // ...), unless an attribute default refers to a declared entity (that one must be declared before the ATTLIST).
+            let default_refs = v.iter().any(|d| match d {
+                ADecl::AttList { defs, .. } => defs.iter().any(|a| match &a.default {
+                    DefaultDecl::Value(p) | DefaultDecl::Fixed(p) => p.iter().any(|x| matches!(x, Piece::EntRef(n) if !matches!(n.as_str(), "lt" | "gt" | "amp" | "apos" | "quot"))),
+                    _ => false,
+                }),
+                _ => false,
+            });
+            let slots: Vec<usize> = v.iter().enumerate().filter(|(_, d)| matches!(d, ADecl::Entity { .. })).map(|(i, _)| i).collect();
+            if slots.len() >= 2 && !default_refs && self.g.chance(1, 3) {
+                self.feat("entities-declared-after-use-in-entity-values");
+                let mut ents: Vec<ADecl> = slots.iter().map(|&i| v[i].clone()).collect();
+                ents.reverse();
+                for (k, &i) in slots.iter().enumerate() {
+                    v[i] = ents[k].clone();
+                }
+            }
             Some(v)
         } else {
             None
